@@ -15,6 +15,7 @@ import WowVerif.Model.View
 import WowVerif.Model.Cfg
 import WowVerif.Model.Wireshark
 import WowVerif.Model.Example
+import WowVerif.Thm.C17c
 import Std.Data.HashMap
 namespace WowVerif.Driver
 
@@ -498,6 +499,13 @@ def loadLine (st : DState) (line : String) : DState :=
 def semHandle (st : DState) (ws : List String) : Option String :=
   match ws with
   | ["wskeys"] => some s!"{st.wsprogs.size}"
+  | ["wsflat", name, key] =>
+    -- C17: the verified static matcher (Thm/C17c.lean flat_sound): `flat` = the definition is inside the straight-line fragment,
+    -- `match` = the dissector program walks every canonical encoding of it exactly (all values, by the theorem)
+    match st.wsprogs.get? name, st.corpus.get? key with
+    | some p, some (_, c) => some s!"flat={if Wireshark.isFlat c then 1 else 0} match={if Wireshark.flatMatches c p then 1 else 0}"
+    | none, _ => some "nows"
+    | _, none => some "nokey"
   | ["trace", key, hex] =>
     -- C18: the field boundaries the definition prescribes for these bytes, and the groups cut at them
     match st.corpus.get? key, unhex hex with
